@@ -109,7 +109,7 @@ func domainLits(kind string, small bool) []string {
 		if small {
 			maxLen = 2
 		}
-		out := []string{"nil"}
+		out := []string{"nil", "{}"} // nil and the empty non-nil slice are different inputs
 		var rec func(prefix []string)
 		rec = func(prefix []string) {
 			if len(prefix) > 0 {
